@@ -371,7 +371,7 @@ def read_ndjson(path):
     return out
 
 
-def run_sharded(lab, sub, scenarios, shards=None, extra_args=None, timeout=1500, env=None):
+def run_sharded(lab, sub, scenarios, shards=None, extra_args=None, timeout=1500, env=None, tag=""):
     """Split scenarios (dicts with 'id') over several lab processes: lab <sub> -in X -out Y [extra]."""
     import threading
     shards = max(1, min(shards or NCPU, len(scenarios) or 1))
@@ -379,8 +379,8 @@ def run_sharded(lab, sub, scenarios, shards=None, extra_args=None, timeout=1500,
 
     def work(k):
         part = scenarios[k::shards]
-        inp = os.path.join(scratch(), "%s-in-%d.ndjson" % (sub, k))
-        outp = os.path.join(scratch(), "%s-out-%d.ndjson" % (sub, k))
+        inp = os.path.join(scratch(), "%s%s-in-%d.ndjson" % (sub, tag, k))
+        outp = os.path.join(scratch(), "%s%s-out-%d.ndjson" % (sub, tag, k))      # (tag: two calls for one sub-command at the same time)
         write_ndjson(inp, part)
         args = [sub, "-in", inp, "-out", outp] + [a.replace("{shard}", str(k)) for a in (extra_args or [])]
         rc, so, se = run_lab(lab, args, timeout=timeout, env=env)
